@@ -144,6 +144,13 @@ def gen_tasks(rng, tier):
             tasks.append({"fn": "where", "group": "where_raw", "raw_condition": True, "operands": [{"kind": "array", "dtype": cdt, "shape": [3]}] + branches, "track": rng.random() < 0.7,
                           "spell": rng.choice(["mg", "np"]), "seed": len(tasks)})
         tasks.append({"fn": "T", "group": "shape", "operands": [T(dt, [2, 3])], "track": True, "spell": "method", "seed": len(tasks)})
+    # ---- vector norms of every order, for every dtype NumPy accepts, tracked or not
+    for dt, o, axis, track in itertools.product(["float16", "float32", "float64", "int8", "int64", "bool", "uint8"], [None, 1, 2, 3, 0.5, "inf", "-inf"], (None, 0, 1, -1), (True, False)):      # (ord=0 is refused loudly: not differentiable)
+        shape = [2, 3] if axis is not None else [4]
+        opts = {"ord": o}
+        if axis is not None:
+            opts["axis"] = axis
+        tasks.append({"fn": "norm", "group": "norm", "operands": [T(dt, shape)], "opts": opts, "track": track, "spell": "np" if rng.random() < 0.5 else "mg_norm", "seed": len(tasks), "domain": "pos"})
     # ---- comparisons and the constant-only ufuncs next to a Python scalar: the scalar is "weak" (it is compared / divided in the tensor's precision).  The values are
     #      chosen so that the precision matters: float32(0.1) != 0.1
     near = [0.1, 0.2, 0.30000001192092896]
